@@ -15,7 +15,7 @@ CONSTANTS Fmt0,         \* "sm" | "ssc": the format of the initial (empty) simfi
           MaxItems, MaxCharts, MaxDepth, DoEmit
 VARIABLE hist
 mvars == <<obj, disk, fs, hist>>
-View == <<obj, disk>>
+View == <<obj, disk, fs>>
 
 Key(n) == KeyOf(n)
 K_COMBOS == Key("COMBOS")
@@ -131,15 +131,45 @@ MTimeNotes == \E j \in DOMAIN obj.charts : \E opt \in {"fake", "drop", "keep"} :
 TimingNext == MSetKey \/ MDelKey \/ MSetAttr \/ MDelAttr \/ MAppendChart \/ MSetChartItem \/ MDelChartItem \/ MTimeNotes
 EditNext == MSetKey \/ MDelKey \/ MGetAttr \/ MSetAttr \/ MDelAttr \/ MAppendChart \/ MRemoveChart \/ MSwapCharts
             \/ MSetChartItem \/ MDelChartItem \/ MSetChartField \/ MReadNotes \/ MCountNotes \/ MReadTiming
+(* Focus = "files": named files - serialize into a file, open by name (the NAME decides the format), mutate with output / backup *)
+F_SM == <<97, 46, 115, 109>>       \* "a.sm"
+F_SSC == <<98, 46, 83, 83, 67>>      \* "b.SSC"
+F_TXT == <<99, 46, 116, 120, 116>>      \* "c.txt"
+F_BAK == <<100, 46, 98, 97, 107>>      \* "d.bak"
+FNames == {F_SM, F_SSC, F_TXT}
+EditScripts == {<<>>, <<[op |-> "setkey", k |-> K_TITLE, v |-> V_B]>>, <<[op |-> "setattr", name |-> K_STOPS, v |-> V_ST]>>,
+                <<[op |-> "setkey", k |-> K_VERSION, v |-> V_VER], [op |-> "delkey", k |-> K_VERSION]>>}
+FileView(f) == [i \in DOMAIN f |-> LET r == Load(f[i].t, TRUE, "named", f[i].n) IN
+                  [n |-> f[i].n, st |-> r.st, fmt |-> r.fmt, obj |-> r.obj]]
+MWriteFile == \E name \in FNames :
+                /\ (Len(fs) < 2 \/ FHas(fs, name))
+                /\ Saveable(obj)
+                /\ WriteFile(name, Canon(obj)) /\ H([op |-> "writefile", name |-> name]) 
+MOpenFile == \E name \in FNames :
+               /\ FHas(fs, name)
+               /\ LET r == LoadedFrom(name, TRUE) IN
+                  OpenFile(name, TRUE, r.st) /\ H([op |-> "openfile", name |-> name, res |-> r.st])
+MMutateFile == \E name \in FNames : \E out \in {<<>>, F_TXT} : \E bak \in {<<>>, F_BAK} : \E edits \in EditScripts :
+               \E body \in {"normal", "CancelMutation", "KeyError"} :
+                 /\ MutateInDomain(name, out, bak, edits)
+                 /\ (out # <<>> => ~FHas(fs, out) \/ Len(fs) <= 3)
+                 /\ LET o0 == MutEntry(name)  o1 == ApplyEdits(o0, edits, 1)
+                        texts == [out |-> Canon(o1), bak |-> IF bak = <<>> THEN <<>> ELSE Canon(o0)]
+                        res == IF body \in {"normal", "CancelMutation"} THEN "ok" ELSE body
+                    IN MutateFile(name, out, bak, edits, body, res, texts)
+                       /\ H([op |-> "mutatefile", name |-> name, out |-> out, bak |-> bak, edits |-> edits, body |-> body, res |-> res])
+FileNext == MWriteFile \/ MOpenFile \/ MMutateFile
 Calls == \/ (Focus = "timing" /\ TimingNext)
-         \/ (Focus # "timing" /\ EditNext)
+         \/ (Focus = "files" /\ (MSetKey \/ MSetAttr \/ MAppendChart))
+         \/ (Focus \notin {"timing", "files"} /\ EditNext)
          \/ (Focus \in {"save", "tossc", "tosm"} /\ (MSave \/ MReopen))
          \/ (Focus \in {"tossc", "tosm"} /\ (MToSSC \/ MToSM))
-Next == Calls /\ UNCHANGED fs           \* (named files: recorded sessions only, see Trace_System)
+Next == \/ Calls /\ UNCHANGED fs
+        \/ Focus = "files" /\ FileNext
 Spec == Init /\ [][Next]_mvars
 
 Bound == Len(hist) <= MaxDepth
-Emit == DoEmit => PrintT(ToJson([hist |-> hist', obj |-> obj', disk |-> disk']))
+Emit == DoEmit => PrintT(ToJson([hist |-> hist', obj |-> obj', disk |-> disk', files |-> FileView(fs')]))
 
 -----------------------------------------------------------------------------
 (* system-level invariants, evaluated in every reachable state *)
@@ -188,4 +218,12 @@ InvTimesMonotone ==
      /\ \A a, b \in DOMAIN tn : (a < b /\ tn[a].p = tn[b].p) => tn[a].tm <= tn[b].tm
      /\ Len(dr) <= Len(fk) /\ Len(fk) <= Len(tn)
      /\ \A a \in DOMAIN fk : fk[a].t = 70 => \E b \in DOMAIN tn : tn[b].tm = fk[a].tm /\ tn[b].c = fk[a].c /\ tn[b].t \in {49, 70}
+(* files: a name occurs once; a mutate never touches a file other than its output and its backup (frame, as action property) *)
+InvFsNames == \A i, j \in DOMAIN fs : fs[i].n = fs[j].n => i = j
+Touched(h) == IF h.op = "writefile" THEN {h.name}
+              ELSE IF h.op = "mutatefile" THEN {IF h.out = <<>> THEN h.name ELSE h.out, h.bak}
+              ELSE {}
+FilesFrame == [][\A i \in DOMAIN fs :
+                   \/ (FHas(fs', fs[i].n) /\ FGet(fs', fs[i].n) = fs[i].t)
+                   \/ (hist' # hist /\ fs[i].n \in Touched(hist'[Len(hist')]))]_mvars
 =============================================================================
